@@ -1,6 +1,17 @@
 //! Aggregation structures for collecting and merging entries
 
+#[cfg(not(metrique_verif))]
 use hashbrown::hash_map::RawEntryMut;
+#[cfg(metrique_verif)]
+use ::hashbrown::hash_map::RawEntryMut;
+// Verification hook: under `--cfg metrique_verif` the name `hashbrown` in this module means a map
+// whose hasher is keyed from the simulation seed, so iteration order is replayable.
+#[cfg(metrique_verif)]
+use verif_hashbrown as hashbrown;
+#[cfg(metrique_verif)]
+mod verif_hashbrown {
+    pub type HashMap<K, V> = ::hashbrown::HashMap<K, V, detsim::hash::SeededState>;
+}
 use metrique::{InflectableEntry, RootEntry, RootMetric};
 use metrique_core::CloseValue;
 use metrique_writer::EntrySink;
